@@ -4,6 +4,7 @@ import collections
 
 from vt.world import World
 from vt import monitors as M
+from vt import engine
 from vt.bus import order_fingerprint
 from vt.bus import ScriptNode
 from ref import codec as C
@@ -268,7 +269,7 @@ def run_case(case):
                 holds[0] += 1
                 holding[0] += 1
                 try:
-                    sim.block_current(until=sim.now + prng.choice([0.0002, 0.001, 0.002]), jitter=False)
+                    sim.block_current(until=sim.now + prng.choice([0.0002, 0.001, 0.002]), waitobj=engine.HOLD, jitter=False)
                 finally:
                     holding[0] -= 1
             return local
